@@ -9,6 +9,8 @@ import (
 	"goa.design/goa/v3/middleware"
 	"net/url"
 	"regexp"
+	"io"
+	"strings"
 )
 
 // ---- C19 (HTTP): request id, trace propagation, sampling, capture ----
@@ -316,4 +318,37 @@ func VerifC19_AdaptiveSamplerWarmup() {
 		h.ServeHTTP(&verifW{h: http.Header{}}, &http.Request{Header: http.Header{}})
 	}
 	verifAssert("adaptive:every-request-of-the-first-window-traced", traced == size-1)
+}
+
+// verifWRF is a writer that, like net/http's, also implements io.ReaderFrom.
+type verifWRF struct{ *verifW }
+
+func (w verifWRF) ReadFrom(r io.Reader) (int64, error) {
+	buf := make([]byte, 4)
+	var total int64
+	for {
+		n, err := r.Read(buf)
+		w.verifW.written += n
+		total += int64(n)
+		if err != nil {
+			return total, nil
+		}
+	}
+}
+
+// VerifC19_CaptureCopy: bytes streamed through io.Copy (what http.ServeContent
+// and file servers do) are counted like any others.
+func VerifC19_CaptureCopy() {
+	inner := &verifW{h: http.Header{}}
+	c := CaptureResponse(verifWRF{inner})
+	body := nondetStringUpTo("body", 3)
+	first := nondetStringUpTo("first", 1)
+	c.WriteHeader(200)
+	if first != "" {
+		c.Write([]byte(first))
+	}
+	// a source without WriteTo, so that io.Copy looks for ReaderFrom on the destination
+	n, err := io.Copy(c, io.LimitReader(strings.NewReader(body), int64(len(body))))
+	verifAssert("capture-copy:copied", err == nil && int(n) == len(body))
+	verifAssert("capture-copy:bytes-actually-written", inner.written == len(first)+len(body) && c.ContentLength == inner.written)
 }
